@@ -68,7 +68,7 @@ func c09Gen(r *rand.Rand, tier string, idx int) any {
 	c.W, c.H = 80, 24
 	c.Inputrc = "set history-autosuggest off\nset convert-meta off\nset input-meta on\nset output-meta on\n"
 	c.Hist = pick(r, c09Hists)
-	c.Kind = pick(r, []string{"nav", "nav", "prefix", "substring", "isearch", "nav-calls"})
+	c.Kind = pick(r, []string{"nav", "nav", "prefix", "substring", "isearch", "nav-calls", "vi-search"})
 	multi := false
 	for _, e := range c.Hist {
 		if strings.Contains(e, "\n") {
@@ -131,6 +131,22 @@ func c09Gen(r *rand.Rand, tier string, idx int) any {
 				call.Ops = append(call.Ops, pick(r, ops))
 			}
 			c.Calls = append(c.Calls, call)
+		}
+	case "vi-search":
+		// Vi command mode: ?text RET (or /text RET after going up), then n / N repeated
+		c.Mode = "vi"
+		c.T = pick(r, []string{"", "abc", "typed", "gi"})
+		c.Pattern = pick(r, []string{"g", "git", "echo", "o", "zzz", "a.b", "a+b", "(", "wö", "世", "same", "e", "a", "ab"})
+		if len(c.Hist) > 0 && r.Intn(2) == 0 {
+			e := []rune(strings.SplitN(pick(r, c.Hist), "\n", 2)[0])
+			if len(e) > 0 {
+				a := r.Intn(len(e))
+				c.Pattern = string(e[a : a+1+r.Intn(len(e)-a)])
+			}
+		}
+		c.Ops = []string{pick(r, []string{"search-back", "search-back", "up+search-fwd"})}
+		for i, n := 0, r.Intn(7); i < n; i++ {
+			c.Ops = append(c.Ops, pick(r, []string{"n", "n", "N"}))
 		}
 	case "isearch":
 		c.T = pick(r, []string{"", "typed", "git", "ec", "gi", "ls", "fo", "he"})
@@ -227,6 +243,19 @@ func c09Run(env *fw.Env, raw json.RawMessage) fw.Outcome {
 			plan = append(plan, sess.Step{W: "\x07", Tag: "leave"})
 		case "ret":
 			plan = append(plan, sess.Step{W: "\r", Tag: "leave"})
+		}
+	case "vi-search":
+		plan = append(plan, sess.Step{W: "\x1b", Tag: "esc"})
+		first = len(plan)
+		for _, op := range c.Ops {
+			switch op {
+			case "search-back":
+				plan = append(plan, sess.Step{W: "?", Tag: "open"}, sess.Step{W: c.Pattern, Tag: "pattern"}, sess.Step{W: "\r", Tag: "search"})
+			case "up+search-fwd":
+				plan = append(plan, sess.Step{W: "k", Tag: "up"}, sess.Step{W: "k", Tag: "up"}, sess.Step{W: "/", Tag: "open"}, sess.Step{W: c.Pattern, Tag: "pattern"}, sess.Step{W: "\r", Tag: "search"})
+			default:
+				plan = append(plan, sess.Step{W: op, Tag: "again"})
+			}
 		}
 	default:
 		for _, op := range c.Ops {
@@ -348,6 +377,45 @@ func c09Run(env *fw.Env, raw json.RawMessage) fw.Outcome {
 					sig = c.Kind + "-search-shows-an-entry-that-does-not-match"
 				}
 				o.Viol(sig, ctx+fmt.Sprintf(" step %d (%s): search text %q, buffer is %q", i-first, plan[i].Tag, key, w.Line))
+				break
+			}
+		}
+	case "vi-search":
+		// after the search and after every n / N the buffer is the in-progress text or an entry
+		// that the search text matches (as a case-insensitive regexp or as a literal substring:
+		// the lenient union, as for the incremental search)
+		re, rerr := regexp.Compile("(?i)" + c.Pattern)
+		for i := first; i < len(plan); i++ {
+			w, ok := after[i]
+			if !ok {
+				break
+			}
+			if plan[i].Tag != "search" && plan[i].Tag != "again" {
+				continue
+			}
+			if w.Main != "vi-command" || w.Local != "" {
+				o.Add("vi_search_waits_outside_command_mode_not_judged", 1)
+				break
+			}
+			o.O.Events++
+			o.Cover(fmt.Sprintf("vi-search|%s|%s|%s|%s", c.Ops[0], plan[i].Tag+plan[i].W, histClass, patClass(c.Pattern)))
+			okBuf := w.Line == c.T
+			isEntry := false
+			for _, e := range E {
+				if w.Line != e {
+					continue
+				}
+				isEntry = true
+				if strings.Contains(strings.ToLower(e), strings.ToLower(c.Pattern)) || (rerr == nil && re.MatchString(e)) {
+					okBuf = true
+				}
+			}
+			if !okBuf {
+				sig := "vi-search-shows-a-buffer-that-is-neither-the-text-nor-an-entry|" + plan[i].Tag
+				if isEntry {
+					sig = "vi-search-shows-an-entry-that-does-not-match|" + plan[i].Tag
+				}
+				o.Viol(sig, ctx+fmt.Sprintf(" after step %d (%s %q): buffer %q", i, plan[i].Tag, plan[i].W, w.Line))
 				break
 			}
 		}
